@@ -133,16 +133,12 @@ Definition m_1210 (d : N) : msg :=
           fun acc => vrep (accN acc 4) item_1210] (F tl_ignore).
 
 (* ---- the registry used by the oracle: message id, header version, dialect -> model *)
-Definition msg_simple (id ver d : N) : option msg :=
-  match id with
-  | 1 => Some m_0001 | 2 => Some m_empty | 258 => Some (m_0102 ver)
-  | 2048 => Some m_0800 | 2053 => Some m_0805
-  | 4099 => Some m_1003 | 4101 => Some m_1005 | 4613 => Some m_1205 | 4614 => Some m_1206
-  | 4624 => Some (m_1210 d) | 4625 => Some m_1211 | 4626 => Some m_1212
-  | 32769 => Some m_8001 | 32771 => Some m_8003 | 33024 => Some m_8100 | 33028 => Some m_empty
-  | 34816 => Some m_8800 | 34817 => Some m_8801 | 36867 => Some m_empty
-  | 37121 => Some m_9101 | 37122 => Some m_9102 | 37125 => Some m_9105
-  | 37377 => Some m_9201 | 37378 => Some m_9202 | 37381 => Some m_9205 | 37382 => Some m_9206
-  | 37383 => Some m_9207 | 37384 => Some (m_9208 d) | 37394 => Some m_9212
-  | _ => None
-  end.
+Definition simple_table (ver d : N) : list (N * msg) :=
+  [(0x0001, m_0001); (0x0002, m_empty); (0x0102, m_0102 ver); (0x0800, m_0800); (0x0805, m_0805);
+   (0x1003, m_1003); (0x1005, m_1005); (0x1205, m_1205); (0x1206, m_1206); (0x1210, m_1210 d);
+   (0x1211, m_1211); (0x1212, m_1212);
+   (0x8001, m_8001); (0x8003, m_8003); (0x8100, m_8100); (0x8104, m_empty); (0x8800, m_8800);
+   (0x8801, m_8801); (0x9003, m_empty); (0x9101, m_9101); (0x9102, m_9102); (0x9105, m_9105);
+   (0x9201, m_9201); (0x9202, m_9202); (0x9205, m_9205); (0x9206, m_9206); (0x9207, m_9207);
+   (0x9208, m_9208 d); (0x9212, m_9212)].
+Definition msg_simple (id ver d : N) : option msg := assoc id (simple_table ver d).
